@@ -54,6 +54,8 @@ def build(spec):
         return {build(k): build(v) for k, v in spec[1]}
     if t == "nd":
         return build_nd(spec)
+    if t in _IDENTITY_BUILDERS:
+        return _IDENTITY_BUILDERS[t](*spec[1:])
     if t == "obj":
         import numpy as np
         a = np.empty(len(spec[2]), dtype=object)
@@ -61,6 +63,28 @@ def build(spec):
             a[i] = e if isinstance(e, str) else build(e)
         return a.reshape(spec[1])
     raise ValueError(f"bad spec {spec!r}")
+
+
+def _mk_identity_builders():
+    import datetime
+    import decimal
+    import pathlib
+    return {
+        "complex": lambda re, im: complex(float(re), float(im)),
+        "slice": lambda a, b, c: slice(a, b, c),
+        "ellipsis": lambda: Ellipsis,
+        "decimal": lambda s: decimal.Decimal(s),
+        "date": lambda y, m, d: datetime.date(y, m, d),
+        "time": lambda h, m, sec, us: datetime.time(h, m, sec, us),
+        "datetime": lambda y, m, d, h, mi, sec: datetime.datetime(y, m, d, h, mi, sec),
+        "timedelta": lambda d, sec, us: datetime.timedelta(days=d, seconds=sec, microseconds=us),
+        "path": lambda p: pathlib.PurePosixPath(p),
+    }
+
+
+# classes of dask.tokenize._IDENTITY_DISPATCH beyond int / float / str / bytes / None: their normal form is the value
+# itself and it is printed with repr -> `Val.atom repr` in the model
+_IDENTITY_BUILDERS = _mk_identity_builders()
 
 
 def build_nd(spec):
@@ -179,6 +203,14 @@ def enc(obj, table):
         return [Sym("bytes"), list(obj)]
     if obj is None:
         return [Sym("none")]
+    import datetime
+    import decimal
+    import pathlib
+    if t in (complex, slice, type(Ellipsis), decimal.Decimal, datetime.date, datetime.time, datetime.datetime,
+             datetime.timedelta, pathlib.PurePosixPath):
+        if t is slice and not all(type(x) in (int, type(None)) for x in (obj.start, obj.stop, obj.step)):
+            raise Unsupported("slice of non-int members")
+        return [Sym("atom"), repr(obj)]
     if t is list:
         return [Sym("list")] + [enc(e, table) for e in obj]
     if t is tuple:
@@ -410,6 +442,9 @@ def obs_eq(a, b) -> bool:
         if a.dtype.hasobject:
             return all(obs_eq(x, y) for x, y in zip(a.flat, b.flat))
         return a.tobytes() == b.tobytes()
+    import decimal
+    if isinstance(a, (decimal.Decimal, complex)):
+        return repr(a) == repr(b)          # Decimal('1.5') / Decimal('1.50'), 0j / -0j are observably different
     return a == b
 
 
@@ -430,8 +465,31 @@ def gen_str(rng, maxlen=4):
     return "".join(rng.choice(CHARS) for _ in range(rng.randint(0, maxlen)))
 
 
-def gen_scalar(rng):
+def gen_identity(rng):
+    k = rng.randrange(9)
+    if k == 0:
+        return ["complex", rng.choice(["0.0", "1.0", "-0.0", "1.5"]), rng.choice(["0.0", "2.0", "-1.0"])]
+    if k == 1:
+        return ["slice", rng.choice([None, 0, 1]), rng.choice([None, 2, 5]), rng.choice([None, 1, 2, -1])]
+    if k == 2:
+        return ["ellipsis"]
+    if k == 3:
+        return ["decimal", rng.choice(["1.5", "1.50", "0", "-0", "1E+2", "100"])]
+    if k == 4:
+        return ["date", 2000 + rng.randint(0, 2), rng.randint(1, 3), rng.randint(1, 3)]
+    if k == 5:
+        return ["time", rng.randint(0, 2), rng.randint(0, 2), rng.randint(0, 1), rng.choice([0, 5])]
+    if k == 6:
+        return ["datetime", 2000 + rng.randint(0, 1), 1, rng.randint(1, 2), rng.randint(0, 1), 0, rng.randint(0, 1)]
+    if k == 7:
+        return ["timedelta", rng.randint(0, 1), rng.randint(0, 2), rng.choice([0, 1])]
+    return ["path", rng.choice(["a", "a/b", "a/b/", "/a", "b"])]
+
+
+def gen_scalar(rng, identity=True):
     r = rng.random()
+    if r < 0.08 and identity:
+        return gen_identity(rng)
     if r < 0.3:
         return ["int", rng.choice([0, 1, -1, 2, 10, 255, -7, 2 ** 64, rng.randint(-5, 5)])]
     if r < 0.4:
@@ -448,7 +506,8 @@ def gen_scalar(rng):
 def gen_hashable(rng, depth=0):
     if depth < 2 and rng.random() < 0.2:
         return ["tuple", [gen_hashable(rng, depth + 1) for _ in range(rng.randint(0, 3))]]
-    return gen_scalar(rng)
+    # dict keys / set elements: the model sorts them by (str, type name), which an opaque `atom` does not carry
+    return gen_scalar(rng, identity=False)
 
 
 def spec_key(spec):
@@ -679,6 +738,23 @@ def mutate(rng, spec):
                            (["bytes", spec[1] + [0]], "bytes+0"), (["list", [["int", x] for x in spec[1]]], "bytes->ints")])
     if t == "none":
         return rng.choice([(["str", "None"], "none->str"), (["int", 0], "none->0"), (["tuple", []], "none->()")])
+    if t in _IDENTITY_BUILDERS:
+        v = build(spec)
+        c = rng.random()
+        if c < 0.3:
+            return ["str", repr(v)], t + "->repr"
+        if c < 0.45:
+            return ["str", str(v)], t + "->str"
+        if c < 0.8:
+            for _ in range(5):
+                other = gen_identity(rng)
+                if other[0] == t and other != spec:
+                    return other, t + "-near"
+        if t == "slice":
+            return ["tuple", [["none"] if x is None else ["int", x] for x in spec[1:]]], "slice->tuple"
+        if t == "timedelta":
+            return ["timedelta", 0, spec[1] * 86400 + spec[2], spec[3]], "same:timedelta-normalised"
+        return spec, "same:identity"
     return spec, "same:identity"
 
 
